@@ -145,6 +145,8 @@ class Interp:
             if kw.get("tshards"):
                 extra["shards"] = tuple(kw["tshards"])
             z = zarr.create_array(d + "/t.zarr", shape=tshape, chunks=tuple(kw["tchunks"]), dtype=a[0].dtype, fill_value=-1, **extra)
+            if kw.get("prefill") is not None:
+                z[...] = kw["prefill"]
             self.targets = getattr(self, "targets", []) + [z]
             unit = tuple(kw.get("tshards") or kw["tchunks"])
             if region is None:
